@@ -114,6 +114,11 @@ _LOCAL_ROLES = {
     'parse_kv2': [
         (('tok',), 'assign', r'Tokenizer\(.*'),
     ],
+    'parse_bin': [
+        (('encoding',), 'assign', _ENC_PAT),
+        (('elements',), 'stmt', r'(\w+)\.append\(Element\(\w+, \w+, \w+\)\)'),
+        (('elem',), 'for', r'elements'),
+    ],
     '_parse_kv2_element': [
         (('elem',), 'assign', r'cls\(name, typ_name, _UNSET_UUID\)'),
         (('attr_name',), 'for', r'tok\.block\(name\)'),
@@ -144,12 +149,21 @@ def _canon_locals(fn: ast.FunctionDef, rules) -> ast.FunctionDef:
         return None
     for _ in range(6):
         found: dict = {}
+        stored = {n.id for n in ast.walk(fn) if isinstance(n, ast.Name) and not isinstance(n.ctx, ast.Load)}
         for canon, kind, pat in rules:
             for n in ast.walk(fn):
                 if kind == 'assign' and isinstance(n, ast.Assign) and len(n.targets) == 1:
                     tg, src = names_of(n.targets[0]), n.value
                 elif kind == 'for' and isinstance(n, (ast.For, ast.comprehension)):
                     tg, src = names_of(n.target), n.iter
+                elif kind == 'stmt' and isinstance(n, (ast.Assign, ast.AugAssign, ast.Expr)):
+                    # the locals are the identifiers the pattern captures in the statement; they must be locals that are assigned
+                    m_ = re.fullmatch(pat, ast.unparse(n), re.S)
+                    if m_ is None or len(m_.groups()) != len(canon) or not all(g_ in stored for g_ in m_.groups()):
+                        continue
+                    for c, a in zip(canon, m_.groups()):
+                        found.setdefault(c, set()).add(a)
+                    continue
                 else:
                     continue
                 if tg is None or len(tg) != len(canon) or not re.fullmatch(pat, ast.unparse(src), re.S):
@@ -542,15 +556,16 @@ def _encoding_assignment(fn: ast.FunctionDef, kind: str) -> None:
 
 # ------------------------------------------------------------------------------------------------ parse_bin
 def _parse_bin(fn: ast.FunctionDef) -> dict:
+    """Every local is found by its role (the expression that binds it or the place it is used at), not by its name."""
     out: dict = {'enc_read': {}}
     _encoding_assignment(fn, 'bool')
     par = _parents(fn)
     # the split test
-    # the local that holds the type byte, whatever it is called: `attr_type = IND_TO_VALTYPE[D]`, `[D] = struct_read('<B', file)`
-    dvars = [n.value.slice.id for n in ast.walk(fn) if isinstance(n, ast.Assign) and ast.unparse(n.targets[0]) == 'attr_type'
+    # the local that holds the type byte: `<attr type> = IND_TO_VALTYPE[D]`, `[D] = struct_read('<B', file)`
+    dvars = [n.value.slice.id for n in ast.walk(fn) if isinstance(n, ast.Assign) and len(n.targets) == 1 and isinstance(n.targets[0], ast.Name)
              and isinstance(n.value, ast.Subscript) and ast.unparse(n.value.value) == 'IND_TO_VALTYPE' and isinstance(n.value.slice, ast.Name)]
     if len(dvars) != 1:
-        _fail('parse_bin: `attr_type = IND_TO_VALTYPE[<local>]` not found exactly once')
+        _fail('parse_bin: `<local> = IND_TO_VALTYPE[<local>]` not found exactly once')
     dv = dvars[0]
     if not any(isinstance(n, ast.Assign) and ast.unparse(n) == f"[{dv}] = binformat.struct_read('<B', file)" for n in ast.walk(fn)):
         _fail(f"parse_bin: `[{dv}] = binformat.struct_read('<B', file)` not found")
@@ -580,8 +595,26 @@ def _parse_bin(fn: ast.FunctionDef) -> dict:
         st_ = [n for n in ast.walk(fn) if isinstance(n, ast.Name) and n.id == var_ and not isinstance(n.ctx, ast.Load) and id(n) not in bare]
         if len(st_) != 2 or dv == av:
             _fail(f'parse_bin: the local `{var_}` is written {len(st_)} times, 2 expected', sp)
-    # string read sites
-    name_sites = ['SiteElName', 'SiteAttrName']
+    # the locals a string is read into, by what is done with them afterwards: the element constructor
+    # `<list>.append(Element(NAME, TYPE, UUID))`, the attribute constructors `Attribute[.kind](NAME, ...)`, the scalar string
+    # `Attribute.string(NAME, VALUE)`; the string table is the read_nullstr_array result that is indexed later
+    mk = [n for n in ast.walk(fn) if isinstance(n, ast.Call) and ast.unparse(n.func) == 'Element']
+    if not (len(mk) == 1 and len(mk[0].args) == 3 and not mk[0].keywords and all(isinstance(a, ast.Name) for a in mk[0].args)):
+        _fail('parse_bin: `Element(<name>, <type>, <uuid>)` with three locals not found exactly once')
+    el_name_var, el_type_var = mk[0].args[0].id, mk[0].args[1].id
+    attr_calls = [n for n in ast.walk(fn) if isinstance(n, ast.Call) and ast.unparse(n.func).split('.')[0] == 'Attribute']
+    attr_names = {ast.unparse(n.args[0]) if n.args else '?' for n in attr_calls}
+    if len(attr_names) != 1 or not next(iter(attr_names)).isidentifier():
+        _fail(f'parse_bin: the attributes are not all built with the same name local: {sorted(attr_names)}')
+    attr_name_var = next(iter(attr_names))
+    value_vars = {n.args[1].id for n in attr_calls if ast.unparse(n.func) == 'Attribute.string' and len(n.args) == 2 and isinstance(n.args[1], ast.Name)}
+    if len(value_vars) != 1:
+        _fail(f'parse_bin: `Attribute.string(<name>, <value local>)` not found exactly once: {sorted(value_vars)}')
+    value_var = next(iter(value_vars))
+    if len({el_type_var, el_name_var, value_var}) != 3 or el_type_var == attr_name_var or value_var == attr_name_var:
+        _fail('parse_bin: one local serves two of element type / element name / attribute name / string value')
+    subscripted = {n.value.id for n in ast.walk(fn) if isinstance(n, ast.Subscript) and isinstance(n.value, ast.Name) and isinstance(n.ctx, ast.Load)}
+    first_loop_end = mk[0].lineno
     stub_read = None
     calls = [n for n in ast.walk(fn) if isinstance(n, ast.Call) and isinstance(n.func, ast.Attribute)
              and n.func.attr in ('read_nullstr', 'read_nullstr_array')]
@@ -590,30 +623,37 @@ def _parse_bin(fn: ast.FunctionDef) -> dict:
         kw = {k.arg: k.value for k in c.keywords}
         if set(kw) - {'encoding'}:
             _fail(f'parse_bin: unrecognised keyword in `{ast.unparse(c)}`', c)
+        p = par.get(c)
         if c.func.attr == 'read_nullstr_array':
             if len(c.args) not in (2, 3) or ast.unparse(c.args[0]) != 'file':
                 _fail(f'parse_bin: unrecognised `{ast.unparse(c)}`', c)
             enc = _enc_arg(c.args[2] if len(c.args) == 3 else kw.get('encoding'), c)
             cnt = ast.unparse(c.args[1])
-            site = {'string_count': 'SiteTable', av: 'SiteArrayStr'}.get(cnt)
-            if site is None:
+            if cnt == av:
+                site = 'SiteArrayStr'
+            elif (isinstance(p, ast.Assign) and len(p.targets) == 1 and isinstance(p.targets[0], ast.Name) and p.targets[0].id in subscripted
+                  and isinstance(c.args[1], ast.Name) and c.lineno < first_loop_end):
+                site = 'SiteTable'
+            else:
                 _fail(f'parse_bin: unclassified string array read `{ast.unparse(c)}`', c)
         else:
             if len(c.args) != 1 or ast.unparse(c.args[0]) != 'file':
                 _fail(f'parse_bin: unrecognised `{ast.unparse(c)}`', c)
             enc = _enc_arg(kw.get('encoding'), c)
-            p = par.get(c)
             if isinstance(p, ast.Call) and ast.unparse(p.func) == 'UUID':
                 stub_read = enc
                 continue
             if not (isinstance(p, ast.Assign) and len(p.targets) == 1 and isinstance(p.targets[0], ast.Name)):
                 _fail(f'parse_bin: unclassified string read `{ast.unparse(c)}`', c)
             tgt = p.targets[0].id
-            if tgt == 'el_type':
+            before = c.lineno < first_loop_end         # read before the element is constructed: its type or name
+            if tgt == el_type_var and before:
                 site = 'SiteElType'
-            elif tgt == 'name' and name_sites:
-                site = name_sites.pop(0)
-            elif tgt == 'value':
+            elif tgt == el_name_var and before:
+                site = 'SiteElName'
+            elif tgt == attr_name_var and not before:
+                site = 'SiteAttrName'
+            elif tgt == value_var and not before:
                 site = 'SiteScalarStr'
             else:
                 _fail(f'parse_bin: unclassified string read into `{tgt}`', c)
@@ -622,15 +662,42 @@ def _parse_bin(fn: ast.FunctionDef) -> dict:
         out['enc_read'][site] = (enc, c.lineno)
     if set(out['enc_read']) != set(SITES):
         _fail(f'parse_bin: string read sites found {sorted(out["enc_read"])}')
+    # are the strings kept as they were read?  every assignment to one of the four locals must be a read_nullstr call or an
+    # entry of the string table, with nothing done to it (a reader that folds or strips a name loses its spelling)
+    tables = {par[c].targets[0].id for c in calls if c.func.attr == 'read_nullstr_array' and isinstance(par.get(c), ast.Assign)
+              and len(par[c].targets) == 1 and isinstance(par[c].targets[0], ast.Name)}
+    out['strings_as_read'], out['strings_line'] = True, fn.lineno
+    for n in ast.walk(fn):
+        if isinstance(n, ast.Assign) and len(n.targets) == 1 and isinstance(n.targets[0], ast.Name) \
+                and n.targets[0].id in (el_type_var, el_name_var, attr_name_var, value_var):
+            v = n.value
+            plain = (isinstance(v, ast.Subscript) and isinstance(v.value, ast.Name) and v.value.id in tables and isinstance(v.slice, ast.Name)) \
+                or (isinstance(v, ast.Call) and isinstance(v.func, ast.Attribute) and v.func.attr == 'read_nullstr')
+            if not plain:
+                out['strings_as_read'], out['strings_line'] = False, n.lineno
     if stub_read != 'EncAscii':
         _fail('parse_bin: stub reference is not followed by `UUID(binformat.read_nullstr(file))`')
-    stub_if = [n for n in ast.walk(fn) if isinstance(n, ast.If) and ast.unparse(n.test) == 'ind == -2']
-    if len(stub_if) != 1 or ast.unparse(stub_if[0].body[0]) != 'uuid = UUID(binformat.read_nullstr(file))':
-        _fail('parse_bin: stub branch `ind == -2` not recognised')
+    # the stub branch: `[I] = struct_read('<i', file)` then `if I == -1: ... elif I == -2: U = UUID(read_nullstr(file)) ...`
+    stub_if = []
+    for n in ast.walk(fn):
+        if not (isinstance(n, ast.If) and isinstance(n.test, ast.Compare) and isinstance(n.test.left, ast.Name)
+                and re.fullmatch(r'\w+ == -2', ast.unparse(n.test))):
+            continue
+        iv = n.test.left.id
+        top = n
+        while isinstance(par.get(top), ast.If) and top in par[top].orelse:
+            top = par[top]
+        holder = par.get(top)
+        sib = getattr(holder, 'body', [])
+        k = next((q for q, x in enumerate(sib) if x is top), None)
+        if k is None or k == 0 or ast.unparse(sib[k - 1]) != f"[{iv}] = binformat.struct_read('<i', file)":
+            _fail(f'parse_bin: the test `{ast.unparse(n.test)}` is not on an index just read with struct_read', n)
+        stub_if.append(n)
+    if len(stub_if) != 1 or not re.fullmatch(r'\w+ = UUID\(binformat\.read_nullstr\(file\)\)', ast.unparse(stub_if[0].body[0])):
+        _fail('parse_bin: stub branch `<index> == -2` not recognised')
     return out
 
 
-# ------------------------------------------------------------------------------------------------ export_binary
 def _export_binary(fn: ast.FunctionDef) -> dict:
     out: dict = {'enc_write': {}}
     _encoding_assignment(fn, 'modes')
@@ -1159,9 +1226,78 @@ def _kv2_members(tree: ast.Module) -> dict:
 
 
 # ------------------------------------------------------------------------------------------------ scalar codecs
+# Identifiers the readers of the module-level functions refer to literally, in the order in which the function binds them
+# (parameters, assigned names, nested function names and their parameters, by source position).  Parameters are listed
+# only for private helpers that are never called with keyword arguments.
+_TOP_LOCALS = {
+    '_fmt_float': (False, ['res']),
+    '_kv2_type_is_keyword': (False, ['folded']),
+    'parse_vector': (False, ['parts']),
+    '_conv_string_to_color': (False, ['parts']),
+    '_conv_binary_to_matrix': (False, ['data', 'mat']),
+    '_binconv_basic': (True, ['name', 'fmt', 'shape', 'unpack', 'byt', 'val', 'ns']),
+    '_binconv_cls': (True, ['name', 'fmt', 'Tup', 'shape', 'ns', 'val', 'byt']),
+}
+
+
+def _alpha_by_order(fn: ast.FunctionDef, with_params: bool, canon: list[str], tree: ast.Module) -> ast.FunctionDef:
+    """Alpha-rename the identifiers a function binds (nested scopes included) to the names the readers use, by the order
+    of their first binding.  One injective renaming of every bound identifier over the whole function keeps its meaning
+    as long as no new name captures a free one and nothing looks identifiers up by their text; when that cannot be
+    established the function is returned as it is (and the readers fail closed on unknown names)."""
+    import copy
+    own = {id(a) for a in ast.walk(fn.args) if isinstance(a, ast.arg)}
+    params = [a.arg for a in ast.walk(fn.args) if isinstance(a, ast.arg)]
+    events = []
+    for n in ast.walk(fn):
+        if n is fn:
+            continue
+        if isinstance(n, (ast.Global, ast.Nonlocal, ast.Import, ast.ImportFrom, ast.ClassDef, ast.AsyncFunctionDef)) \
+                or (isinstance(n, ast.ExceptHandler) and n.name is not None) or n.__class__.__name__ in ('Match', 'TypeAlias'):
+            return fn
+        if isinstance(n, ast.Name) and n.id in ('locals', 'vars', 'eval', 'exec', 'dir'):
+            return fn
+        if isinstance(n, ast.Name) and not isinstance(n.ctx, ast.Load):
+            events.append((n.lineno, n.col_offset, n.id))
+        elif isinstance(n, ast.arg) and (with_params or id(n) not in own):
+            events.append((n.lineno, n.col_offset, n.arg))
+        elif isinstance(n, ast.FunctionDef):
+            events.append((n.lineno, n.col_offset, n.name))
+    bound: list[str] = []
+    for _, _, nm in sorted(events):
+        if nm not in bound and (with_params or nm not in params):
+            bound.append(nm)
+    if len(bound) != len(canon) or bound == canon:
+        return fn
+    ren = dict(zip(bound, canon))
+    free = {n.id for n in ast.walk(fn) if isinstance(n, ast.Name)} - set(bound)
+    if not with_params:
+        free |= set(params)
+    if free & set(canon):
+        return fn
+    if with_params:        # no caller may name a parameter
+        for c in ast.walk(tree):
+            if isinstance(c, ast.Call) and isinstance(c.func, ast.Name) and c.func.id == fn.name and c.keywords:
+                return fn
+    for c in ast.walk(fn):  # nor a call inside the function a parameter of a nested function
+        if isinstance(c, ast.Call) and any(k.arg in ren for k in c.keywords):
+            return fn
+    fn = copy.deepcopy(fn)
+    for n in ast.walk(fn):
+        if isinstance(n, ast.Name) and n.id in ren:
+            n.id = ren[n.id]
+        elif isinstance(n, ast.arg) and n.arg in ren:
+            n.arg = ren[n.arg]
+        elif isinstance(n, ast.FunctionDef) and n is not fn and n.name in ren:
+            n.name = ren[n.name]
+    return fn
+
+
 def _top_func(tree: ast.Module, name: str) -> ast.FunctionDef:
     for n in tree.body:
         if isinstance(n, ast.FunctionDef) and n.name == name:
+            if name in _TOP_LOCALS:
+                return _alpha_by_order(n, _TOP_LOCALS[name][0], _TOP_LOCALS[name][1], tree)
             return n
     _fail(f'function {name} not found')
 
@@ -1317,7 +1453,10 @@ def _mode_pred(node: ast.AST, where) -> dict:
 
 
 def _ifexp_modes(node: ast.AST, yes, no, where) -> dict:
-    """`YES if <mode test> else NO` -> per mode: is it YES?"""
+    """`YES if <mode test> else NO` -> per mode: is it YES?  A constant is that answer for every mode (the obligations on
+    gen_hdr then say which mode loses its text)."""
+    if isinstance(node, ast.Constant) and (node.value in yes or node.value in no):
+        return {m: node.value in yes for m in UMODES}
     if isinstance(node, ast.IfExp) and isinstance(node.body, ast.Constant) and isinstance(node.orelse, ast.Constant):
         pred = _mode_pred(node.test, where)
         if node.body.value in yes and node.orelse.value in no:
@@ -1328,7 +1467,10 @@ def _ifexp_modes(node: ast.AST, yes, no, where) -> dict:
 
 
 def _ifexp_bool(node: ast.AST, yes, no, where) -> dict:
-    """`YES if unicode else NO` over the boolean `unicode` of the readers -> {True: is YES?, False: ...}."""
+    """`YES if unicode else NO` over the boolean `unicode` of the readers -> {True: is YES?, False: ...}; a constant is that
+    answer for both."""
+    if isinstance(node, ast.Constant) and (node.value in yes or node.value in no):
+        return {True: node.value in yes, False: node.value in yes}
     if isinstance(node, ast.IfExp) and isinstance(node.body, ast.Constant) and isinstance(node.orelse, ast.Constant):
         t = node.test
         neg = False
@@ -2020,8 +2162,45 @@ def _coq_str(s: str) -> str:
     return '[' + '; '.join(str(ord(c)) for c in s) + ']%N'
 
 
+def _binformat_helpers() -> dict:
+    """srctools/binformat.py (another module): do `read_nullstr` and `read_nullstr_array`, through which parse_bin reads every
+    string, decode with the codec they are given?  read_nullstr: the one `.decode(X)` has X = its `encoding` parameter;
+    read_nullstr_array: its one call of read_nullstr passes its own `encoding` parameter on (third positional or by keyword)."""
+    tree = ast.parse(src_text('binformat.py'))
+    out = {}
+
+    def enc_param(fn):
+        names = [a.arg for a in fn.args.args]
+        if 'encoding' not in names:
+            _fail(f'binformat.{fn.name}: no `encoding` parameter', fn)
+        return names.index('encoding')
+    rn = _top_func(tree, 'read_nullstr')
+    pos_rn = enc_param(rn)
+    decs = [c for c in ast.walk(rn) if isinstance(c, ast.Call) and isinstance(c.func, ast.Attribute) and c.func.attr == 'decode']
+    if len(decs) != 1:
+        _fail(f'binformat.read_nullstr: expected one .decode(...) call, found {len(decs)}', rn)
+    d = decs[0]
+    arg = d.args[0] if d.args else next((k.value for k in d.keywords if k.arg == 'encoding'), None)
+    extra = len(d.args) > 1 or any(k.arg != 'encoding' for k in d.keywords)
+    stores = [n for n in ast.walk(rn) if isinstance(n, ast.Name) and n.id == 'encoding' and not isinstance(n.ctx, ast.Load)]
+    out['nullstr'] = isinstance(arg, ast.Name) and arg.id == 'encoding' and not extra and not stores
+    out['nullstr_line'] = d.lineno
+    ra = _top_func(tree, 'read_nullstr_array')
+    enc_param(ra)
+    calls = [c for c in ast.walk(ra) if isinstance(c, ast.Call) and ast.unparse(c.func) == 'read_nullstr']
+    if len(calls) != 1:
+        _fail(f'binformat.read_nullstr_array: expected one call of read_nullstr, found {len(calls)}', ra)
+    c = calls[0]
+    passed = c.args[pos_rn] if len(c.args) > pos_rn else next((k.value for k in c.keywords if k.arg == 'encoding'), None)
+    stores = [n for n in ast.walk(ra) if isinstance(n, ast.Name) and n.id == 'encoding' and not isinstance(n.ctx, ast.Load)]
+    out['array'] = isinstance(passed, ast.Name) and passed.id == 'encoding' and not stores
+    out['array_line'] = c.lineno
+    return out
+
+
 def translate() -> tuple[str, dict]:
     tree = _normalise_module(ast.parse(src_text('dmx.py')))
+    bfh = _binformat_helpers()
     _STRUCTS.clear()
     _STRUCTS.update(_module_structs(tree))
     vts = _value_types(tree)
@@ -2233,6 +2412,11 @@ def translate() -> tuple[str, dict]:
         '(* _export_kv2: the skip test of the loop over the members; _parse_kv2_element: the test in front of the name setter *)',
         f'Definition gen_kv2_skip : mfilter := {mfilter(kv2m["skip"])}.',
         f'Definition gen_kv2_name_test : nametest := {kv2m["name_test"]}.',
+        '(* srctools/binformat.py: read_nullstr decodes with the codec it is given; read_nullstr_array passes its codec on to read_nullstr *)',
+        f'Definition gen_bf_nullstr_decodes_with_codec : bool := {b(bfh["nullstr"])}.',
+        f'Definition gen_bf_array_passes_codec_on : bool := {b(bfh["array"])}.',
+        '(* parse_bin: are element types, element names, attribute names and string values stored exactly as read (string table entry / read_nullstr) *)',
+        f'Definition gen_bin_strings_stored_as_read : bool := {b(pb["strings_as_read"])}.',
         '(* _export_kv2: is the name line written for every element; for which (cull_uuid, is a root) is the id line written *)',
         f'Definition gen_kv2_name_line_always : bool := {b(kv2m["name_line_always"])}.',
         f'Definition gen_kv2_id_written : bool -> bool -> bool := fun cull root => {kv2m["id_cond"]}.',
